@@ -27,7 +27,7 @@ SPACE = {
 }
 BOUNDS = {"quick": {"max_total": 4, "corrupt_total": 2}, "thorough": {"max_total": 4, "corrupt_total": 3}}
 ASSUMPTIONS = [
-    "strings that are malformed only by a single comma next to a parenthesis or side boundary (e.g. '(X:center,)') are not classified by the statement: counted and skipped",
+    "strings that are malformed only by a single comma in front of a closing parenthesis ('(X:center,)') are not classified by the statement: counted and skipped; a comma outside the parentheses that separates nothing ('(X:center),->()') is a stray character and must be refused",
     "spaces are insignificant everywhere (as the implementation's own round-trip tests establish)",
     "names equal to one of the five position words are outside the property",
 ]
@@ -260,6 +260,20 @@ def check_decorated(rec, sig, as_text):
         return
     if attrs(s) != expected_attrs(sig):
         rec.violation("annotated", ("text-hints:" if as_text else "hints:") + "differs-from-string-form", case, expected_attrs(sig), attrs(s))
+        return
+    # the same function wrapped a second time (other options): its hints still denote the same signature, and the function's
+    # own annotations are what they were
+    ann_before = dict(f.__annotations__)
+    try:
+        s2 = as_grid_ufunc(boundary="fill", fill_value=1.0)(f).signature
+        rec.calls += 1
+    except Exception as e:
+        rec.violation("annotated", ("text-hints:" if as_text else "hints:") + "second-wrap-raise:" + exc_sig(e), case, text, f"{type(e).__name__}: {e}"[:160])
+        return
+    if attrs(s2) != expected_attrs(sig):
+        rec.violation("annotated", ("text-hints:" if as_text else "hints:") + "second-wrap-differs-from-string-form", case, expected_attrs(sig), attrs(s2))
+    elif f.__annotations__ != ann_before:
+        rec.violation("annotated", "annotations-of-the-function-changed", case, sorted(ann_before), sorted(f.__annotations__))
 
 
 def check_annotated(rec, sig, spaces=0):
